@@ -106,6 +106,21 @@ def fp_miter(builder, outsA, outsB, domain, tag, timeout=900, solver="cvc5"):
   return solve.run_smt(smt, solver, timeout=timeout, tag=tag), smt
 
 
+def fp_miter_text(builder, outsA, outsB, domain):
+  fa, fb = flat(outsA), flat(outsB)
+  diffs = []
+  for a, c in zip(fa, fb):
+    if a is c:
+      continue
+    if a.sort == "B":
+      diffs.append(ir.L("(not (= {0} {1}))", a, c))
+    else:
+      diffs.append(ir.L("(not (or (fp.eq {0} {1}) (and (fp.isNaN {0}) (fp.isNaN {1}))))", a, c))
+  builder.close_stubs()
+  body = "(or %s)" % " ".join("{%d}" % i for i in range(len(diffs)))
+  return ir.build_smt(builder, list(domain) + [ir.L(body, *diffs)])
+
+
 def decide(run, oid, builder, outsA, outsB, inputs, domain, confirm, meta, relax=True, fp=True, timeout=900, relax_kw=None):
   """confirm(witness dict name->float32 bits or floats) -> (bool reproduced, detail).
   Records an obligation in `run`; returns Verdict(kind in equal/different/inconclusive)."""
